@@ -168,11 +168,29 @@ class Verifier:
                 ob.where = 'line %s' % ex.cur_loc
                 ob.smt2 = self.dump(ex, f, oid)
             return
+        # unknown: the same query under other random seeds (quantifier instantiation order is seed dependent: a query that normally takes
+        # 0.1 s occasionally runs away), short budget each
+        if r == z3.unknown:
+            for seed_ in (7, 23, 101):
+                rs = z3.Solver(); rs.set('timeout', min(self.timeout_ms, 15000)); rs.set('random_seed', seed_)
+                z3.set_param('smt.random_seed', seed_)
+                try:
+                    rs.add(ex.solver.assertions()); rs.add(z3.Not(f))
+                    if rs.check() == z3.unsat:
+                        ob.seconds += time.time() - t0 - dt; ob.backend = 'z3 (reseeded)'; return
+                finally: z3.set_param('smt.random_seed', 0)
         # unknown: second opinion from cvc5 on the same query
         if ob.status == 'discharged':
             r2 = run_cvc5(fs.to_smt2(), self.timeout_ms * 2 // 1000 + 1)
             if r2 == z3.unsat:
                 ob.backend = 'cvc5'; return
+            # no proof and no model (quantified hypotheses).  Refutation attempt: if the goal contradicts the quantifier-free facts of this
+            # path (branch conditions, assignments, ground contract clauses), it is false on every execution reaching this point.
+            if not E.has_quant(f) and not z3.is_false(z3.simplify(f)):      # (a literal False goal asks for infeasibility of the path: never refutable this way)
+                g = z3.Solver(); g.set('timeout', 3000); g.add(ex.ground.assertions()); g.add(f)
+                if g.check() == z3.unsat and ex.ground.check() == z3.sat:
+                    ob.status = 'failed'; ob.model = {'refuted': 'the clause contradicts the quantifier-free facts of the path (no complete model: quantified hypotheses)'}
+                    ob.where = 'line %s' % ex.cur_loc; ob.smt2 = self.dump(ex, f, oid); return
             ob.status = 'unknown'; ob.where = 'line %s (%s)' % (ex.cur_loc, fs.reason_unknown())
             ob.smt2 = self.dump(ex, f, oid)
 
